@@ -185,7 +185,7 @@ def run_case(case):
 def cases_for(tier, seed):
     parts = [p for n in range(1, 9) for k in range(1, 5) for p in compositions(n, k)]
     cases = []
-    nsched = 2 if tier == "quick" else 64
+    nsched = 4 if tier == "quick" else 64
     for pi, p in enumerate(parts):
         for st in STYPES:
             base = {"partition": list(p), "stype": st}
